@@ -26,7 +26,8 @@ theorem Pred_ScMinimalVartime
   unfold ScMinimalVartime_sh Lnat
   repeat' (refine ite_l (fun _ => ?_) (fun _ => ?_))
   all_goals (refine sing_ite (fun _ => ?_) (fun _ => ?_))
-  all_goals first | rfl | (exfalso; omega)
+  -- leaves are constants or comparisons (`return v < c`); `with_reducible`: never try to evaluate a comparison of open terms
+  all_goals first | (with_reducible rfl) | (exfalso; omega) | (exact if_pos (by omega)) | (exact if_neg (by omega))
 
 /-- non-vacuity: the tree really distinguishes L − 1 from L -/
 example : ScMinimalVartime_sh 0xec 0xd3 0xf5 0x5c 0x1a 0x63 0x12 0x58 0xd6 0x9c 0xf7 0xa2 0xde 0xf9 0xde 0x14 0 0 0 0 0 0 0 0 0 0 0 0 0 0 0 0x10 = [1] := by decide
